@@ -389,7 +389,11 @@ func cmdCheck(args []string) int {
 	}
 	sort.Strings(ids)
 	for _, id := range ids {
-		fmt.Printf("KNOWN-FINDING: property=%s %s %s\n", *prop, id, knownByID[id].What)
+		kp := knownByID[id].Property
+		if kp == "" {
+			kp = *prop
+		}
+		fmt.Printf("KNOWN-FINDING: property=%s %s %s\n", kp, id, knownByID[id].What)
 	}
 	for _, v := range violLines {
 		fmt.Println(v)
